@@ -106,6 +106,7 @@ class Env:
         self.tick_log = []
         self.tick_reaped = []
         self.tick_missing = None
+        self.tjob_pids = set()
         pk = dict(cfg.get('pool', {}))
         self.nprocs = cfg.get('procs', 2)
         pk['semaphore'] = vproc.use_scheduler_aware_putlock(
@@ -481,6 +482,7 @@ class Env:
         rec = self.jobs[j]
         rec['targeted'] = True
         pid = rec['h']._worker_pid
+        self.tjob_pids.add(pid)
         for r2 in self.jobs:
             # whatever really runs (or died) unfinished in that process is
             # what the termination hits
@@ -777,8 +779,15 @@ class Env:
             rec['timed_out_at'] = self.world.now
         elif typ is bexc.Terminated:
             if not rec.get('targeted') and not rec.get('hit'):
+                sig = None
+                if any(p.get('state') == 'done' and p.get('pid') in
+                       self.tjob_pids for p in parts.values()):
+                    # it had finished on the terminated process; its result
+                    # was still in flight when the process was reaped
+                    sig = 'F25:terminated-with-result-in-flight'
                 self._flag('job %d failed with Terminated but terminate_job '
-                           'was never aimed at it' % j)
+                           'was never aimed at it (parts %r)' % (j, parts),
+                           sig)
         elif typ is bexc.SoftTimeLimitExceeded:
             if not self.soft_sent.get(j) and not any(
                     k[2] == signal.SIGUSR1 for k in self.world.kills):
